@@ -82,13 +82,25 @@ Theorem C11_accepted_replicated_acyclic : forall w (cnt : cid -> option N),
 Proof. exact (accept_replicated_acyclic component_full). Qed.
 Print Assumptions C11_accepted_replicated_acyclic.
 
-(* every applicable single fault (8 constructors, any position; CyclicVars: a variable - global, or of one
+(* every applicable single fault (9 constructors, any position; CyclicVars: a variable - global, or of one
    component - additionally mentions a variable that already depends on it) turns an accepted workflow into a
    rejected one *)
 Theorem C11_complete : forall m w,
   accept component_full w = true -> applicable component_full m w -> accept component_full (mutate m w) = false.
 Proof. exact (complete component_full). Qed.
 Print Assumptions C11_complete.
+
+(* the ninth fault constructor, RemoveCompVar i n ("remove a variable" applied to a COMPONENT-level variable), in the
+   shape that needs the variable context of a component to be its own: the removed variable n is used only INDIRECTLY,
+   by another variable v of the same component (label: part-%(chunk)s after chunk was removed), and it is not a global
+   variable.  The workflow is ANY accepted workflow: whatever the other components - siblings of the same stage
+   included - define under the name n, the mutant is rejected (variables of a component are private to it) *)
+Theorem C11_remove_comp_var_indirect : forall w i c n v rs,
+  accept component_full w = true -> nth_error (w_comps w) i = Some c -> ~ In n (map fst (w_gvars w)) ->
+  In (v, rs) (c_vars c) -> v <> n -> In n rs ->
+  accept component_full (mutate (RemoveCompVar i n) w) = false.
+Proof. exact (remove_comp_var_indirect component_full). Qed.
+Print Assumptions C11_remove_comp_var_indirect.
 
 (* the same for ANY schema (the interpreter never masks an error below a path of dictionary keys) *)
 Theorem C11_complete_any_schema : forall cs m w,
@@ -276,11 +288,24 @@ Example C11_nonvacuous :
       [VFlt "2.5"; VFlt "600.0"; VStr "abc"; VDict [(KS "x", VInt 1)]; VDict []; VStr "3"; VBool true; VInt 7]
   = [false; false; false; false; false; true; true; true] /\
   In ex_p_nproc int_options /\ ex_p_nproc <> p_repeat_interval /\
-  wrong_rejected component_full ex_p_nproc (VFlt "2.5") = true /\ py_int "abc" = None.
+  wrong_rejected component_full ex_p_nproc (VFlt "2.5") = true /\ py_int "abc" = None /\
+  (* RemoveCompVar: two siblings of stage 0 both define chunk and derive label from it; removing chunk from either
+     (used only through label), or label (used directly), is rejected; removing the local g0 of b un-shadows the global
+     g0 and is harmless; the three faulty instances are applicable *)
+  accept component_full ex_wf_sib = true /\
+  map (fun m => accept component_full (mutate m ex_wf_sib))
+      [RemoveCompVar 0 "chunk"; RemoveCompVar 1 "chunk"; RemoveCompVar 0 "label"; RemoveCompVar 1 "g0"]
+  = [false; false; false; true] /\
+  reasons component_full (mutate (RemoveCompVar 1 "chunk") ex_wf_sib) = [5] /\
+  applicable component_full (RemoveCompVar 0 "chunk") ex_wf_sib /\
+  applicable component_full (RemoveCompVar 1 "chunk") ex_wf_sib /\
+  applicable component_full (RemoveCompVar 0 "label") ex_wf_sib.
 Proof.
   split; [vm_compute; reflexivity|]. split; [vm_compute; reflexivity|]. split; [vm_compute; reflexivity|].
   split; [vm_compute; reflexivity|].
   destruct ex_cyclic_applicable as [H1 [H2 [H3 H4]]]. repeat (split; [assumption|]).
   split; [vm_compute; reflexivity|]. split; [vm_compute; reflexivity|]. split; [exact ex_nproc_int|].
-  split; [discriminate|]. split; vm_compute; reflexivity.
+  split; [discriminate|]. split; [vm_compute; reflexivity|]. split; [vm_compute; reflexivity|].
+  split; [vm_compute; reflexivity|]. split; [vm_compute; reflexivity|]. split; [vm_compute; reflexivity|].
+  exact ex_remove_comp_var_applicable.
 Qed.
